@@ -116,7 +116,7 @@ def tasks_C05(tier, seed):
 def tasks_C06(tier, seed):
     rnd = random.Random(seed)
     tasks = []
-    for e in corpus_T(AUX_ONLY + ["regression"]) + corpus_G("C06") + [e for e in corpus_G("C01") if e.get("V") != "show"] + corpus_G("C16") + corpus_G_all(tier, seed, 3, skip=("C09", "C15", "C05", "C16")):
+    for e in corpus_T(AUX_ONLY + ["regression"]) + corpus_G("C06") + [e for e in corpus_G("C01") if e.get("V") != "show"] + corpus_G("C16") + corpus_G_all(tier, 0, 3, skip=("C09", "C15", "C05", "C16")):
         cfgs = [AUX_ONLY]
         tr = e.get("trait") or FAM_TRAIT.get(e["id"].split("-")[1])
         if tr in AUX_ONLY:
@@ -132,32 +132,36 @@ def tasks_C06(tier, seed):
 
 
 def tasks_C01(tier, seed, only_opt=False, costs=False):
-    from . import astutil
-
     rnd = random.Random(seed)
     tasks = []
-    entries = [e for e in corpus_T() if e["trait"] not in ("ast", "global", "dependency")] + corpus_G("C01") + corpus_G_all(tier, seed, 4)
+    core = [e for e in corpus_T() if e["trait"] not in ("ast", "global", "dependency")] + corpus_G("C01")
+    wide = corpus_G_all(tier, 0, 4)
     if only_opt:
-        entries = [e for e in corpus_T() + corpus_G("C02") + corpus_G("C01") + corpus_G("C11") + corpus_G("C12") + corpus_G("C13") + corpus_G("C15") + corpus_G("C09") + corpus_G("C10") + corpus_G("C14") + corpus_G("C08")
-                   if ":~" in e["text"] or "#minimi" in e["text"] or "#maximi" in e["text"]]
-    for e in entries:
+        has_opt = lambda e: ":~" in e["text"] or "#minimi" in e["text"] or "#maximi" in e["text"]  # noqa
+        core = [e for e in corpus_T() + corpus_G("C02") + corpus_G("C01") if has_opt(e)]
+        wide = [e for f in ("C11", "C12", "C13", "C15", "C09", "C10", "C14", "C08") for e in corpus_G(f) if has_opt(e)]
+    n_core = len(core)
+    for i, e in enumerate(core + wide):
         hs = [list(x) for x in head_sigs(e["text"])]
         cfgs = ["default", "all"]
         if tier == "thorough":
-            cfgs += [[t] for t in TRAITS] + [sorted(rnd.sample(TRAITS, rnd.randint(2, 7))) for _ in range(3)]
+            if i < n_core:
+                cfgs += [[t] for t in TRAITS] + [sorted(rnd.sample(TRAITS, rnd.randint(2, 7))) for _ in range(3)]
+            else:
+                cfgs += [sorted(rnd.sample(TRAITS, rnd.randint(2, 7)))]
         for c in cfgs:
-            tasks.append(base_task(dict(e, out=hs), c, "inout", tier, costs=costs))
-            if c == "default" or tier == "thorough":
-                tasks.append(base_task(dict(e, **{"in": "auto", "out": "auto"}), c, "show", tier, costs=costs))
-            if tier == "thorough" and hs:
-                tasks.append(base_task(dict(e, out=[rnd.choice(hs)]), c, "inout", tier, costs=costs))
-                tasks.append(base_task(dict(e, out=[]), c, "inout", tier, costs=costs))
+            tasks.append(base_task(dict(e, out=hs, outs=None), c, "inout", tier, costs=costs))
+            if c == "default" or (tier == "thorough" and c == "all"):
+                tasks.append(base_task(dict(e, **{"in": "auto", "out": "auto", "outs": None}), c, "show", tier, costs=costs))
+            if tier == "thorough" and hs and c in ("default", "all") and i < n_core:
+                tasks.append(base_task(dict(e, out=[rnd.choice(hs)], outs=None), c, "inout", tier, costs=costs))
+                tasks.append(base_task(dict(e, out=[], outs=None), c, "inout", tier, costs=costs))
     return tasks
 
 
 def tasks_C04(tier, seed):
     tasks = []
-    entries = [e for e in corpus_T() if e["trait"] not in ("ast", "global", "dependency")] + corpus_G("C04") + corpus_G_all(tier, seed, 2)
+    entries = [e for e in corpus_T() if e["trait"] not in ("ast", "global", "dependency")] + corpus_G("C04") + corpus_G_all(tier, 0, 2)
     for e in entries:
         hs = [list(x) for x in head_sigs(e["text"])]
         tr = e.get("trait") or FAM_TRAIT.get(e["id"].split("-")[1])
